@@ -114,3 +114,106 @@ theorem setAliasIn_nodup (b nb : Str) (hnb : nb ≠ []) :
           · exact Or.inr ⟨h1, List.mem_cons_of_mem _ h2⟩
 
 end Moq
+
+namespace Moq
+
+theorem resolveStep_mono (o : Ord) (d1 d2 : RS → Str → Str → Option RS) (lvl : Nat) (skip : Option Str)
+    (s : RS) (p : Str) (x : RS)
+    (hd : ∀ s p q y, d1 s p q = some y → d2 s p q = some y)
+    (h : resolveStep o d1 lvl skip s p = some x) : resolveStep o d2 lvl skip s p = some x := by
+  unfold resolveStep at h ⊢
+  cases hc : searchIn (o.pk s.imps) (uniqueName p lvl) with
+  | none => rw [hc] at h; exact h
+  | some c =>
+    rw [hc] at h
+    simp only [] at h ⊢
+    by_cases hcond : c.path = p ∨ skip = some c.path
+    · rw [if_pos hcond] at h ⊢; exact h
+    · rw [if_neg hcond] at h ⊢; exact hd _ _ _ _ h
+
+/-- fuel is only a bound on the recursion depth: once `resolveImportConflict` returns with some
+    fuel, it returns the same with more – "out of fuel" faithfully stands for "does not return" -/
+theorem resolve_fuel_mono (o : Ord) :
+    ∀ (fuel : Nat) (s : RS) (a b : Str) (lvl : Nat) (x : RS),
+      resolve o fuel s a b lvl = some x → resolve o (fuel + 1) s a b lvl = some x := by
+  intro fuel
+  induction fuel with
+  | zero => intro s a b lvl x h; simp [resolve] at h
+  | succ k ih =>
+    intro s a b lvl x h
+    rw [resolve] at h
+    rw [resolve]
+    split at h
+    · rename_i he; simp only [he, if_true]; exact ih _ _ _ _ _ h
+    · rename_i he
+      simp only [he, if_false]
+      cases h1 : resolveStep o (fun s p q => resolve o k s p q (lvl + 1)) lvl (some b) s a with
+      | none => simp [h1] at h
+      | some s1 =>
+        simp only [h1, Option.bind_some] at h
+        have m1 := resolveStep_mono o _ (fun s p q => resolve o (k + 1) s p q (lvl + 1)) lvl (some b) s a s1
+          (fun s p q y hy => ih s p q (lvl + 1) y hy) h1
+        have m2 := resolveStep_mono o _ (fun s p q => resolve o (k + 1) s p q (lvl + 1)) lvl none s1 b x
+          (fun s p q y hy => ih s p q (lvl + 1) y hy) h
+        simp only [m1, Option.bind_some]
+        exact m2
+
+theorem addImport_fuel_mono (o : Ord) (fuel : Nat) (r : Registry) (p : PkgRef) (x : Registry × Option Str)
+    (h : addImport o fuel r p = some x) : addImport o (fuel + 1) r p = some x := by
+  unfold addImport at h ⊢
+  simp only [] at h ⊢
+  split
+  · rename_i hc; simp only [hc, if_true] at h; exact h
+  · rename_i hc
+    simp only [hc, if_false] at h
+    split
+    · rename_i q hq; simp only [hq] at h; exact h
+    · rename_i hq
+      simp only [hq] at h
+      split
+      · rename_i c hcs
+        simp only [hcs] at h
+        simp only [Option.map_eq_some_iff] at h ⊢
+        obtain ⟨s, hs, hx⟩ := h
+        exact ⟨s, resolve_fuel_mono o fuel _ _ _ _ s hs, hx⟩
+      · rename_i hcs; simp only [hcs] at h; exact h
+
+end Moq
+
+namespace Moq
+
+/-- closed form of `AddImport` for the ordinary conflict -/
+theorem addImport_shallow (k fuel : Nat) (r : Registry) (p : PkgRef) (c : Pkg)
+    (hdst : stripVendorPath p.path ≠ r.moqPkgPath) (hnew : r.lookup (stripVendorPath p.path) = none)
+    (hc : searchIn r.imports (Pkg.qualifier ⟨stripVendorPath p.path, p.name,
+            aliasOf r.aliases (stripVendorPath p.path)⟩) = some c)
+    (heq : ∀ l, l < k → uniqueName (stripVendorPath p.path) l = uniqueName c.path l)
+    (hd : uniqueName (stripVendorPath p.path) k ≠ uniqueName c.path k)
+    (hfa : ∀ x ∈ r.imports, x.qualifier = uniqueName (stripVendorPath p.path) k → x.path = c.path)
+    (hfb : ∀ x ∈ r.imports, x.qualifier = uniqueName c.path k → x.path = c.path) :
+    addImport Ord.id (fuel + 1 + k) r p =
+      some ({ r with imports := setAliasIn c.path (uniqueName c.path k) r.imports ++
+                [⟨stripVendorPath p.path, p.name, uniqueName (stripVendorPath p.path) k⟩] },
+            some (stripVendorPath p.path)) := by
+  unfold addImport
+  simp only [hdst, if_false, hnew]
+  have hcs : searchIn (Ord.id.pk r.imports) (Pkg.qualifier ⟨stripVendorPath p.path, p.name,
+        aliasOf r.aliases (stripVendorPath p.path)⟩) = some c := hc
+  simp only [hcs]
+  have hcm := searchIn_some_mem _ _ _ hc
+  have hne : stripVendorPath p.path ≠ c.path := by
+    intro e
+    have := List.find?_eq_none.mp hnew c hcm.1
+    simp [e] at this
+  have hclimb := resolve_climb Ord.id
+    ⟨⟨stripVendorPath p.path, p.name, aliasOf r.aliases (stripVendorPath p.path)⟩, r.imports⟩
+    (stripVendorPath p.path) c.path k (fuel + 1) 0 (by simpa using heq)
+  rw [hclimb]
+  have hsh := resolve_shallow fuel
+    ⟨stripVendorPath p.path, p.name, aliasOf r.aliases (stripVendorPath p.path)⟩ r.imports c.path (0 + k)
+    hne (by simpa using hd) (by simpa using hfa) (by simpa using hfb)
+  simp only [] at hsh
+  rw [hsh]
+  simp
+
+end Moq
